@@ -52,6 +52,16 @@ class VLoop(asyncio.BaseEventLoop):
         self._max_vtime = max_vtime
         self._selector = _NullSelector(self)
         self.clock_reads = 0
+        # strong references to every task ever created on this loop: a leaked task that nothing else
+        # references must stay observable (asyncio.all_tasks only holds weak references, so whether such
+        # a task is still listed would depend on the garbage collector)
+        self.created_tasks = []
+
+        def factory(loop, coro, **kw):
+            t = asyncio.Task(coro, loop=loop, **kw)
+            loop.created_tasks.append(t)
+            return t
+        self.set_task_factory(factory)
 
     def time(self):
         self._vtime += 1e-6
@@ -124,7 +134,7 @@ def library_tasks(loop):
     """live tasks created by the code under test (tasks of the harness/simulator are excluded)"""
     out = []
     cur = asyncio.current_task(loop)
-    for t in asyncio.all_tasks(loop):
+    for t in list(getattr(loop, "created_tasks", None) or asyncio.all_tasks(loop)):
         if t is cur or t.done():
             continue
         co = t.get_coro()
